@@ -32,6 +32,10 @@ Round 6:
   T_C16_closest_param_point   the parameter returned by LinearInterpolatedCurve.get_closest_param addresses the projection point:
                            get_point(get_closest_param(q)) beats every point of every segment
   T_C16_tie_params / _samples / _discrete        the model agrees with the guards, counts, operators regenerated from the source text
+Round 6c (ℝ):
+  T_C16_circle_resampling_real   arc·(1 − h²/24) ≤ chord sum ≤ arc for parameters ascending in steps ≤ h ≤ 2
+  T_C16_circle_additive_real     lengths of independent discretisations are additive up to r(c − a)h²/24
+  T_C16_linspace_steps / T_C16_circle_get_length_real   the model's linspace ascends in steps (b − a)/N: the bound for get_length, every count
 Spline interpolation and scipy.optimize.minimize are oracles: validator checks only (see notes/C16.md).
 -/
 import CBV.Lemmas.C16
